@@ -419,6 +419,8 @@ func runC12(r *Report, rng *rand.Rand, thorough bool) {
 		return
 	}
 	vcases := NewCases("cases_C12_visit", "From V Require Import Model.Strict Corr.Eval.", "rcell * supplied * (nat * option string * list (string * string))", "mismatches_visit")
+	tcases := NewCases("cases_C12_tail", "From V Require Import Model.Strict Corr.Eval.", "chain_result * bool", "mismatches_tail")
+	defer tcases.WriteTo(r)
 	bcases := NewCases("cases_C12_bodies", "From V Require Import Model.Strict Corr.Eval.", "list string * string * list string", "mismatches_bodies")
 	for _, sc := range scenarios {
 		id := sc["id"].(string)
@@ -446,10 +448,12 @@ func runC12(r *Report, rng *rand.Rand, thorough bool) {
 		r.Dist["fw="+m.fw]++
 		switch m.kind {
 		case "handler-error":
+			tcases.Add(fmt.Sprintf("(RError, %v)", res.Status >= 400), replay)
 			if handlers != 1 || res.Status < 400 {
 				r.Violate("handler_error_not_on_error_path/"+m.fw, fmt.Sprintf("%s: handler returned an error; status %d", id, res.Status), replay)
 			}
 		case "foreign-response":
+			tcases.Add(fmt.Sprintf("(RForeign, %v)", res.Status >= 400), replay)
 			r.Dist["response=foreign-type-from-strict-middleware"]++
 			if res.Status < 400 {
 				r.Violate("foreign_response_type_not_on_error_path/"+m.fw, fmt.Sprintf("%s: a strict middleware returned a value that is no response object of the operation; status %d, body %q", id, res.Status, trunc(res.RespBody, 80)), replay)
@@ -520,6 +524,9 @@ func runC12(r *Report, rng *rand.Rand, thorough bool) {
 		case "response":
 			sup := m.val["supplied"].(map[string]any)
 			wantStatus := sup["status"].(int)
+			if wantStatus < 400 {
+				tcases.Add(fmt.Sprintf("(RValid, %v)", res.Status >= 400), replay)
+			}
 			wantCT := sup["ctype"].(string)
 			wantH := sup["hdrs"].(map[string]string)
 			gotCT := strings.Join(res.RespHeader["Content-Type"], ",")
